@@ -96,7 +96,7 @@ def generate(ctx, n_quick=1500):
         if ctx.out_of_time():
             return
         r = rng.fork(i)
-        # every fifth body may also hold event statements (judged by D only: the Lean model has no event nodes)
+        # every fifth body may also hold event statements
         yield _case(r, i, G.HOMES[i % 4], r.randint(1, maxsize), None, vary=r.random() < 0.85,
                     events=(i % 5 == 4))
 
